@@ -46,8 +46,12 @@ def oracle_run(cfg):
     shp = (cfg['nb'], cfg['C'], cfg['N']) if d1 else (cfg['nb'], cfg['C'], cfg['H'], cfg['W'])
     X = r.standard_normal(shp)
     try:
-        fwd = (DWT1DForward if d1 else DWTForward)(J=J, wave=wn if d1 else c01.wave_arg(cfg, 'dec'), mode=lib_mode(cfg))
-        inv = (DWT1DInverse if d1 else DWTInverse)(wave=wn if d1 else c01.wave_arg(cfg, 'rec'), mode=lib_mode(cfg))
+        # a third of the pairs get their mode through the public .mode attribute after construction with another mode (one pair
+        # reused for a sweep over padding modes): the modules read it on every call
+        first = lib_mode(cfg) if cfg['seed'] % 3 != 1 else ('zero' if mode == 'periodization' else 'periodization')
+        fwd = (DWT1DForward if d1 else DWTForward)(J=J, wave=wn if d1 else c01.wave_arg(cfg, 'dec'), mode=first)
+        inv = (DWT1DInverse if d1 else DWTInverse)(wave=wn if d1 else c01.wave_arg(cfg, 'rec'), mode=first)
+        fwd.mode = inv.mode = lib_mode(cfg)
         y = inv(fwd(torch.tensor(X))).numpy()
     except (RuntimeError, ValueError) as e:
         if mode == 'reflect':
